@@ -50,6 +50,9 @@ pub enum Op {
     Persist(u16),
     /// Storage receives the canonical blocks up to `to` through a side channel.
     Jump(u64),
+    /// Side-channel jump to `to` and, before any other task has run (the manager has not yet noticed the jump),
+    /// queue_block(block n in this variant) is called and polled once.
+    JumpQueue(u64, u64, Variant),
     /// Storage prunes blocks below `to`.
     Prune(u64),
     /// The node restarts from durable storage (the manager is rebuilt; unpersisted blocks are lost).
@@ -202,8 +205,16 @@ fn gen_case(ch: &mut Choices) -> Case {
             10 | 11 | 12 => Op::Persist(ch.pick(&[1u16, 2, 5, 50, 1000])),
             13 => {
                 let to = (frontier + ch.below(12) as u64).min(FIRST_PRE + LEN);
+                let old = frontier;
                 frontier = frontier.max(to);
-                Op::Jump(to)
+                if ch.bool() {
+                    Op::Jump(to)
+                } else {
+                    // a block for a number inside (or just around) the jumped range arrives at the same instant
+                    let n = (old + ch.below((to - old) as usize + 2) as u64).saturating_sub(ch.below(2) as u64).clamp(FIRST_PRE, FIRST_PRE + LEN - 1);
+                    let v = ch.pick(&[Variant::PayloadMismatch, Variant::Canonical, Variant::UnderWeight, Variant::Conflicting, Variant::ForeignGenesis, Variant::BadPreGenesis, Variant::UnknownEpoch]);
+                    Op::JumpQueue(to, n, v)
+                }
             }
             14 => Op::Prune(near(ch, frontier.saturating_sub(5))),
             15 => Op::Restart,
@@ -251,6 +262,7 @@ fn check(case: &Case, st: &mut Stats) -> Result<(), String> {
         let mut last_queued_next = node.mgr.queued().next().0;
         let mut subs_checked = 0usize;
         let (mut lag_over_cache, mut jump_overtook, mut restart_lost, mut out_of_order) = (false, false, false, false);
+        let mut jump_and_queue = false;
         let mut all_runner: Vec<tokio::task::JoinHandle<anyhow::Result<()>>> = vec![];
 
         let res: Result<(), String> = async {
@@ -297,6 +309,41 @@ fn check(case: &Case, st: &mut Stats) -> Result<(), String> {
                         let blocks: Vec<Block> = (from..*to).filter_map(|n| ch.canonical.get((n - FIRST_PRE) as usize).cloned()).collect();
                         // if the store already accepted a conflicting block for one of these numbers, storage wins after the jump
                         engine.side_append(blocks);
+                    }
+                    Op::JumpQueue(to, n, v) => {
+                        let from = engine.durable_next();
+                        if *to > node.mgr.queued().next().0 {
+                            jump_overtook = true;
+                        }
+                        let blocks: Vec<Block> = (from..*to).filter_map(|n| ch.canonical.get((n - FIRST_PRE) as usize).cloned()).collect();
+                        engine.side_append(blocks);
+                        // no await between the jump and the first poll of queue_block: the manager's view of storage is stale
+                        if let Some((b, valid)) = block(*n, *v) {
+                            if valid {
+                                candidates.entry(*n).or_default().push(b.clone());
+                            }
+                            jump_and_queue = true;
+                            let id = next_task;
+                            next_task += 1;
+                            let (mgr, ctx, results) = (node.mgr.clone(), node.life.child(), results.clone());
+                            let mut fut = Box::pin(async move { mgr.queue_block(&ctx, b).await.map_err(|e| format!("{e:?}")) });
+                            let first = tokio::select! {
+                                biased;
+                                r = &mut fut => Some(r),
+                                _ = std::future::ready(()) => None,
+                            };
+                            let handle = match first {
+                                Some(r) => {
+                                    results.lock().unwrap().done.insert(id, r);
+                                    tokio::spawn(async {})
+                                }
+                                None => tokio::spawn(async move {
+                                    let r = fut.await;
+                                    results.lock().unwrap().done.insert(id, r);
+                                }),
+                            };
+                            tasks.push((id, *n, valid, handle));
+                        }
                     }
                     Op::Prune(to) => engine.prune(*to),
                     Op::Defer(d) => engine.st.lock().unwrap().defer = *d,
@@ -442,7 +489,7 @@ fn check(case: &Case, st: &mut Stats) -> Result<(), String> {
         }
         .await;
         let concurrent = tasks.len() >= 2;
-        for (c, name) in [(lag_over_cache, "persistence_lag_over_cache_capacity"), (jump_overtook, "jump_overtakes_queue"), (restart_lost, "restart_with_unpersisted_blocks"), (out_of_order, "out_of_order_submitters")] {
+        for (c, name) in [(lag_over_cache, "persistence_lag_over_cache_capacity"), (jump_overtook, "jump_overtakes_queue"), (restart_lost, "restart_with_unpersisted_blocks"), (out_of_order, "out_of_order_submitters"), (jump_and_queue, "block_offered_at_the_instant_of_a_side_channel_jump")] {
             if c {
                 st.class(name);
             }
@@ -475,7 +522,7 @@ pub fn main(env: &Env) -> i32 {
         env,
         "store",
         "the real EngineManager and its background tasks over a harness storage layer (deferred persistence, side-channel appends, pruning, restart), a pre-signed 260-block chain (3 pre-genesis + blocks certified by a 3-validator committee) and per block 6 variants (canonical, validly certified conflicting payload, payload/hash mismatch, under-weight, foreign genesis, unknown epoch, bad pre-genesis); \
-         programs of 3-42 operations {queue one block near the frontier, queue a range of 3-120 blocks in or against order (each from its own task), persist k, jump, prune, restart, read, toggle deferred persistence} with a quiescence barrier after each; \
+         programs of 3-42 operations {queue one block near the frontier, queue a range of 3-120 blocks in or against order (each from its own task), persist k, jump, jump and - before the manager has noticed it - offer a (valid or invalid) block for a number around the jumped range, prune, restart, read, toggle deferred persistence} with a quiescence barrier after each; \
          oracle after every step: queued/persisted are nested ranges and queued.next never decreases; every block in the reported range reads back, carries its number, is a verified offered block and never changes (except that storage wins after a side-channel jump); \
          storage submissions follow the previous submission or the durable head; invalid blocks fail at once and change nothing; queue_block(n) completes exactly when block n-1 is queued. \
          Non-trivial = concurrent / out-of-order submitters together with persistence lag > 100, a jump overtaking the queue, or a restart losing unpersisted blocks",
